@@ -1,6 +1,6 @@
 (* model side of the spf engine; mode from argv[1]:
      model : case line -> result line in the format of harness/spf_h.c
-     spec  : case line | C result line -> "ok" | "okrfc" | "bad" | "pre"
+     spec  : case line | C result line -> "ok" | "okrfc" | "okrfcp" | "bad" | "pre"
      rfc   : case line -> result of the RFC 7208 reference (debugging aid) *)
 open M
 
@@ -82,7 +82,11 @@ let spec fs obs = match parse_case fs with
                  (* okrfc: the reference of Spec/SpfRfc.v gave a result for this case and the implementation agrees *)
                  let ref = rfc_check_host (zone_dns (decode_zone zone)) x dom in
                  if not (rfc_agrees ref (z_of_int rc)) then "bad"
-                 else (match ref with RSkip -> "ok" | _ -> "okrfc"))
+                 else (match ref with
+                       | RSkip -> "ok"
+                       | _ ->
+                         (* okrfcp: the case lies in the class for which agreement is PROVED (strict reference gives a result) *)
+                         (match rfc_check_host_strict (zone_dns (decode_zone zone)) x dom with RSkip -> "okrfc" | _ -> "okrfcp")))
 
 let rfc fs = match parse_case fs with
   | None -> "BADCASE"
